@@ -17,6 +17,42 @@ def span_zero(case):
     return case
 
 
+def with_flat_interstorm(case, rng):
+    """The same record with one stretch of a dry spell, between two steps of drizzle, during
+    which the water level does not move at all (a logger with coarse resolution, a float stuck
+    for a few hours): an interstorm interval that is classified but crosses no grid level.
+    Returns (case, True) or (case, False) when the record has no dry spell long enough"""
+    step = case['step']
+    rain = list(case['rain'])
+    z = {t: v for t, v in case['z']}
+    n = len(rain)
+    runs = []
+    i = 0
+    while i < n:
+        if rain[i] == 0 and i * step in z:
+            j = i
+            while j < n and rain[j] == 0 and j * step in z:
+                j += 1
+            if j - i >= 10 and any(r > 0 for r in rain[:i]):
+                runs.append((i, j))
+            i = j
+        else:
+            i += 1
+    if not runs:
+        return case, False
+    i, j = rng.choice(runs)
+    d0 = rng.randint(i + 1, j - 8)
+    d1 = d0 + rng.randint(4, 6)
+    drizzle = min(0.1, case['sthr'] / 4.0) if case['sthr'] > 0 else 0.0
+    if drizzle <= 0:
+        return case, False
+    rain[d0] = rain[d1] = drizzle
+    for k in range(d0 + 1, d1 + 1):
+        z[k * step] = z[(d0 + 1) * step]
+    out = dict(case, rain=rain, z=[[t, z[t]] for t, _ in case['z']], flat_interstorm=[(d0 + 1) * step, d1 * step])
+    return out, True
+
+
 def make_case(rng, i):
     if i % 12 == 7:
         return gen_planted.gen_slow(rng)
